@@ -9,6 +9,9 @@ CONSTANTS
   MsV = {0, 1}
   CdV = {0, 1}
   StV = {0, 1, 2}
+  LogV = {}
+  RefV = {}
+  SuiV = {}
   MaxOps = 4
   MaxDepth = 3
   MaxCommits = 1
@@ -16,6 +19,7 @@ CONSTANTS
 VIEW View
 INVARIANT ReadsArePlainMap
 INVARIANT StageIsCanonical
+INVARIANT SideIsPlainJournal
 INVARIANT ContentsWellFormed
 INVARIANT ReopenReadsBack
 CHECK_DEADLOCK FALSE
